@@ -99,6 +99,11 @@ func Gen(o GenOpts) *rapid.Generator[Script] {
 			// keep the number of handlers (hence items in flight per script) moderate
 			ps = ps[:1]
 		}
+		if (s.Div == "fair" || s.Div == "fairlow") && rapid.IntRange(0, 9).Draw(t, "hugeprio") == 0 {
+			// priority values are plain uint map keys: the top of the range is as valid as 3, 2, 1
+			// (only for the dividers that do not compute with the values)
+			ps[0] = pick(t, "hugeval", ^uint(0), uint(1)<<63, uint(1)<<63-1, uint(1)<<32)
+		}
 		// priorities that may be added later (v1) come from the same pool
 		var extra []uint
 		if o.AddRemove && s.Ver == 1 && !s.Simple {
@@ -148,6 +153,10 @@ func Gen(o GenOpts) *rapid.Generator[Script] {
 		s.H = cands[idx]
 		if o.AnyH && rapid.IntRange(0, 3).Draw(t, "anyh") == 0 {
 			s.H = uint(rapid.IntRange(1, int(mh)+2).Draw(t, "hraw"))
+		}
+		if o.Saturated && s.Ver == 1 && rapid.IntRange(0, 3).Draw(t, "v1anyh") == 0 {
+			// the v1 constructor accepts every non-zero H, also one that leaves a priority without a share
+			s.H = uint(rapid.IntRange(1, int(mh)+1).Draw(t, "hraw1"))
 		}
 		if s.Ver == 1 && !s.Simple {
 			s.OutCap = pick(t, "outcap", 0, 0, 1, 2, 4)
@@ -221,7 +230,7 @@ func Gen(o GenOpts) *rapid.Generator[Script] {
 		single := curP("singleP")
 		for i := 0; i < nops; i++ {
 			if i == stopAt {
-				s.Ops = append(s.Ops, Op{K: pick(t, "stopkind", "S", "S", "K")})
+				s.Ops = append(s.Ops, Op{K: pick(t, "stopkind", "S", "S", "K"), N: pick(t, "stopcalls", 1, 1, 2)})
 				break
 			}
 			r := rapid.IntRange(0, 99).Draw(t, "k")
@@ -279,7 +288,7 @@ func Gen(o GenOpts) *rapid.Generator[Script] {
 			}
 		}
 		if o.StopOps && s.Ver == 1 && stopAt >= nops {
-			s.Ops = append(s.Ops, Op{K: pick(t, "stopkind2", "S", "S", "K")})
+			s.Ops = append(s.Ops, Op{K: pick(t, "stopkind2", "S", "S", "K"), N: pick(t, "stopcalls2", 1, 1, 2)})
 		}
 		if o.Fault {
 			s.Fault = &Fault{
